@@ -589,8 +589,9 @@ def features(case, model):
 
 
 def nontrivial(case, model):
-    # a case carries information when numpy produced a result (or a defined refusal) for a field operand
-    return True
+    # numpy produced arrays for a field operand and a result field was compared value by value
+    # (cases where numpy refuses the operation only compare the exception)
+    return isinstance(model, dict)
 
 
 def known(case, impl, model, spec, mode):
@@ -619,8 +620,9 @@ RULE = ('exhaustive: every operator (16 binary) x every ordered pair of operand 
         'extremes, inf and nan; both unary operators on every field type for lengths 0,1,3; the same field object on both '
         'sides; then seeded samples over lengths 0,1,3,5, 0-d arrays, scalar variants (0, overflowing Python ints), '
         'broadcasting / shape mismatch, dataframe assignment on a fixed fraction (HDF5-backed cases cost ~1 ms). '
-        'Every case is non-trivial in the sense that numpy computes (or refuses) a result for a field operand; the '
-        'features histogram shows how many cases reach each operator / kind / dtype / boundary feature.')
+        'Non-trivial = numpy computes result arrays for a field operand and the result field(s) are compared value by '
+        'value (cases in which numpy refuses the operation compare the exception only); the features histogram shows '
+        'how many cases reach each operator / operand kind / class / dtype / boundary feature.')
 EXHAUSTIVE = {'quick': True, 'thorough': True}
 TRUSTED = ['numpy is the oracle (the property says so): harness/props/C13.py eval_sym applies operator.* / np.divmod / '
            'np.logical_not to the operands\' underlying arrays',
